@@ -119,100 +119,145 @@ def hanzi_ref(code):
     return (d >> 8) * 0x60 + (d & 0xFF)
 
 
-@rule('C01', 'R2', 12, 'per-mode packing = ISO 7.4.3-7.4.6 (truth table of the loop body over one packing group; stride = group size)')
+def _new_code_constants(fx, fn):
+    """Integer constants of `fn` and of every function / module-level statement of the encoder module (cheap upper bound of
+    what the packing can depend on); used to choose representative low bytes."""
+    out = set()
+    for n in ast.walk(fn):
+        if isinstance(n, ast.Constant) and isinstance(n.value, int) and not isinstance(n.value, bool):
+            out.add(n.value)
+    inv = __import__('vstatic.canon', fromlist=['inventory']).inventory().get('encoder', {})
+    known = set(inv.get('functions', ())) | set(inv.get('names', ())) | set(inv.get('classes', ()))
+    for st in fx.forest.mod('encoder').body:
+        name = getattr(st, 'name', None)
+        if isinstance(st, ast.Assign) and len(st.targets) == 1 and isinstance(st.targets[0], ast.Name):
+            name = st.targets[0].id
+        if name is not None and name in known:
+            continue
+        if isinstance(st, (ast.FunctionDef, ast.ClassDef, ast.Assign)):
+            for n in ast.walk(st):
+                if isinstance(n, ast.Constant) and isinstance(n.value, int) and not isinstance(n.value, bool):
+                    out.add(n.value)
+    return out
+
+
+def _bits(val, width):
+    return [(val >> (width - 1 - k)) & 1 for k in range(width)]
+
+
+@rule('C01', 'R2', 9, 'per-mode packing = ISO 7.4.3-7.4.6: make_segment, interpreted as a whole, writes for every value of a packing group the ISO bits')
 def r2(fx):
     fn = fx.fn('encoder', 'make_segment')
-    branches = _mode_chain(fx, fn)
-    got_modes = sorted(m for sel, _, _ in branches for m in sel)
-    yield ob('dispatch covers each mode exactly once', got_modes == ['alphanumeric', 'byte', 'hanzi', 'kanji', 'numeric']
-             and all(len(sel) == 1 for sel, _, _ in branches), fn, got=[sel for sel, _, _ in branches],
-             want='one branch per mode')
-    need(all(len(sel) == 1 for sel, _, _ in branches), 'mode dispatch is not one branch per mode')
-    it = Interp(max_steps=30_000_000)
+    it = Interp(max_steps=2_000_000_000)
     genv = encoder_env(fx.forest, it)
+    ms = FuncVal(fn, genv, it)
+    md = modes(fx)
     full = fx.tier == 'thorough'
-    for sel, body, node in branches:
-        mode = sel[0]
-        loop = single([s for s in body if isinstance(s, ast.For)], f'loop in the {mode} branch')
-        pre = [s for s in body if s is not loop]
-        group = {'numeric': 3, 'alphanumeric': 2, 'byte': 1, 'kanji': 2, 'hanzi': 2}[mode]
-        # stride
-        if mode == 'byte':
-            okh = ast.unparse(loop.iter) == 'segment_data' and isinstance(loop.target, ast.Name)
-            yield ob('byte: iterates every byte', okh, loop, got=f'for {ast.unparse(loop.target)} in {ast.unparse(loop.iter)}',
-                     want='for b in segment_data')
-            need(okh, 'byte loop shape')
-        else:
-            b = pat.need(loop.iter, 'range(0, H_l, H_s)', f'{mode} loop header')
-            sv = ev.ev(b['s'], genv)
-            bound_ok = nf.norm(nf.inline(fn, b['l'])) in (nf.norm(ast.parse('segment_length', mode='eval').body), nf.norm(ast.parse('len(segment_data)', mode='eval').body))
-            yield ob(f'{mode}: stride = group size {group}, over the whole content', sv == group and bound_ok, loop, got=ast.unparse(loop.iter), want=f'range(0, segment_length, {group})')
+    counts = {}
 
-        def run(data, i=0, mode=mode):
-            buf = BufModel()
-            e = dict(genv, segment_data=data, segment_length=len(data), append_bits=buf.append_bits, buff=buf, i=i)
-            it.block(pre, e)
-            if mode == 'byte':
-                e[loop.target.id] = data[i]
-            else:
-                e[loop.target.id] = i
-            try:
-                it.block(loop.body, e)
-            except PyRaise as ex:
-                return ('raises', ex.name)
-            return [a for a in buf.appends]
+    def call(data, mode, enc=None):
+        try:
+            seg = ms(data, md[mode], enc)
+        except PyRaise as ex:
+            return ('raises', ex.name)
+        return seg
+
+    def seg_bits(seg):
+        return [int(x) for x in seg.bits]
+
+    def check(mode, groups, tails, prefix, value_of, width_of):
+        """`groups`: full groups, all packed in one call; `tails`: incomplete last groups, one call each behind `prefix`."""
         bad = None
         n = 0
-        if mode == 'numeric':
-            cases = [str(x).zfill(w).encode() for w in (1, 2, 3) for x in range(10 ** w)]
-            for c in cases:
-                n += 1
-                got = run(b'999' + c, 3)      # second group: also checks the slice start/end
-                want = [(int(c), 3 * len(c) + 1)]
-                if got != want and bad is None:
-                    bad = (c, got, want)
-        elif mode == 'alphanumeric':
-            al = iso.ALPHANUMERIC
-            cases = [bytes([a, b_]) for a in al for b_ in al] + [bytes([a]) for a in al]
-            for c in cases:
-                n += 1
-                got = run(b'AB' + c, 2)
-                want = [(45 * al.index(c[0]) + al.index(c[1]), 11)] if len(c) == 2 else [(al.index(c[0]), 6)]
-                if got != want and bad is None:
-                    bad = (c, got, want)
-        elif mode == 'byte':
-            for x in range(256):
-                n += 1
-                got = run(bytes([0, x]), 1)
-                if got != [(x, 8)] and bad is None:
-                    bad = (x, got, [(x, 8)])
+        data = b''.join(groups)
+        seg = call(data, mode)
+        want = []
+        for g in groups:
+            want += _bits(value_of(g), width_of(g))
+        n += len(groups)
+        if isinstance(seg, tuple) and seg and seg[0] == 'raises':
+            bad = ('all complete groups', seg, 'ISO bits')
         else:
-            ref = kanji_ref if mode == 'kanji' else hanzi_ref
-            lows = range(256) if full else _pair_lows(loop.body)
-            for hi in range(256):
-                for lo in lows:
-                    n += 1
-                    code = (hi << 8) | lo
-                    got = run(bytes([0x81, 0x40, hi, lo]), 2)
-                    r = ref(code)
-                    want = [(r, 13)] if r is not None else ('raises', 'ValueError')
-                    if got != want and bad is None:
-                        bad = (hex(code), got, want)
-        yield ob(f'{mode}: group -> (value, width) over {n} group values', bad is None, loop,
+            got = seg_bits(seg)
+            counts[mode] = (seg.char_count, len(data), seg.mode, seg.encoding)
+            if got != want:
+                k = next((i for i in range(min(len(got), len(want))) if got[i] != want[i]), min(len(got), len(want)))
+                off, gi = 0, 0
+                for gi, g in enumerate(groups):
+                    if off + width_of(g) > k:
+                        break
+                    off += width_of(g)
+                g = groups[gi]
+                bad = (bytes(g), f'{len(got)} bits, bits of this group {got[off:off + width_of(g)]}', f'{len(want)} bits, {(value_of(g), width_of(g))}')
+        pre = _bits(value_of(prefix), width_of(prefix)) if prefix else []
+        for t in tails:
+            n += 1
+            seg = call(prefix + t, mode)
+            want = pre + _bits(value_of(t), width_of(t))
+            got = seg if isinstance(seg, tuple) and seg and seg[0] == 'raises' else seg_bits(seg)
+            if got != want and bad is None:
+                bad = (bytes(t), got if isinstance(got, tuple) else got[len(pre):], (value_of(t), width_of(t)))
+        return n, bad
+
+    al = iso.ALPHANUMERIC
+    plans = {
+        'numeric': ([str(x).zfill(3).encode() for x in range(1000)], [str(x).zfill(w).encode() for w in (1, 2) for x in range(10 ** w)], b'999',
+                    lambda g: int(g), lambda g: 3 * len(g) + 1),
+        'alphanumeric': ([bytes([a, b_]) for a in al for b_ in al], [bytes([a]) for a in al], b'AB',
+                         lambda g: 45 * al.index(g[0]) + al.index(g[1]) if len(g) == 2 else al.index(g[0]), lambda g: 11 if len(g) == 2 else 6),
+        'byte': ([bytes([x]) for x in range(256)], [], b'', lambda g: g[0], lambda g: 8),
+    }
+    for mode, (groups, tails, prefix, value_of, width_of) in plans.items():
+        n, bad = check(mode, groups, tails, prefix, value_of, width_of)
+        yield ob(f'{mode}: group -> (value, width) over {n} group values', bad is None, fn,
                  got=f'group {bad[0]}: {bad[1]}' if bad else 'ISO formula', want=f'{bad[2]}' if bad else 'ISO formula')
-    # char_count: bytes for numeric/alnum/byte, pairs for kanji/hanzi
-    # the character count handed to the segment constructor, as the statements of make_segment that define it compute it
-    rets = [c for c in src.calls_in(fn, '_Segment', into_nested=False) if src.call_name(c) == '_Segment']
-    seg_call = single(rets, '_Segment(...) construction in make_segment')
-    cc = src.kwargs_of(seg_call).get('char_count') or (seg_call.args[1] if len(seg_call.args) > 1 else None)
-    need(cc is not None, 'char_count argument of _Segment')
-    md = modes(fx)
+    lows_q = None
+    for mode, ref in (('kanji', kanji_ref), ('hanzi', hanzi_ref)):
+        if full:
+            lows = his = list(range(256))
+        else:
+            # the partition of the 16-bit codes induced by the constants of the code: every boundary byte and its neighbours
+            if lows_q is None:
+                lows_q = {0x00, 0x01, 0x3F, 0x40, 0x41, 0x7E, 0x7F, 0x80, 0x81, 0x9F, 0xA0, 0xA1, 0xA2, 0xBF, 0xC0, 0xC1, 0xFB, 0xFC, 0xFD, 0xFE, 0xFF}
+                his_q = {0x00, 0x01, 0x7F, 0x80, 0x81, 0x82, 0x9E, 0x9F, 0xA0, 0xA1, 0xA2, 0xA9, 0xAA, 0xAB, 0xAF, 0xB0, 0xB1, 0xDF, 0xE0, 0xE1, 0xEA, 0xEB, 0xEC,
+                         0xF9, 0xFA, 0xFB, 0xFE, 0xFF}
+                for c in _new_code_constants(fx, fn):
+                    if 0 <= c <= 0xFFFF:
+                        for d in (-1, 0, 1):
+                            lows_q.add((c + d) & 0xFF)
+                            his_q.add(((c >> 8) + d) & 0xFF)
+                lows_q, his_q = sorted(lows_q), sorted(his_q)
+            lows, his = lows_q, his_q
+        valid = [bytes([hi, lo]) for hi in range(256) for lo in range(256) if ref((hi << 8) | lo) is not None]
+        if not full:
+            kl, kh = set(lows), set(his)
+            valid = [g for g in valid if g[1] in kl or g[0] in kh]
+        n, bad = check(mode, valid, [], b'', lambda g: ref((g[0] << 8) | g[1]), lambda g: 13)
+        first = valid[0]
+        for hi in his:
+            for lo in lows:
+                code = (hi << 8) | lo
+                if ref(code) is not None:
+                    continue
+                n += 1
+                got = call(first + bytes([hi, lo]), mode)
+                if got != ('raises', 'ValueError') and bad is None:
+                    bad = (hex(code), got if isinstance(got, tuple) and got[0] == 'raises' else f'accepted ({len(seg_bits(got))} bits)', ('raises', 'ValueError'))
+        yield ob(f'{mode}: group -> (value, width) over {n} group values', bad is None, fn,
+                 got=f'group {bad[0]}: {bad[1]}' if bad else 'ISO formula', want=f'{bad[2]}' if bad else 'ISO formula')
+    # what the segment records beside the bits
+    okc = all(m in counts for m in ('numeric', 'alphanumeric', 'byte', 'kanji', 'hanzi'))
     vals = {}
-    for m in ('numeric', 'alphanumeric', 'byte', 'kanji', 'hanzi'):
-        vals[m] = value_at_exit(it, fn, cc, dict(genv, segment_mode=md[m], segment_length=10), ('segment_mode', 'segment_length'))
-    okc = all(vals[m] == (5 if m in ('kanji', 'hanzi') else 10) for m in vals)
-    yield ob('char_count = bytes (numeric, alphanumeric, byte) / byte pairs (kanji, hanzi)', okc, cc, got=vals,
-             want='10 bytes -> 10, 10, 10, 5, 5')
+    if okc:
+        for m, (cc, nbytes, smode, senc) in counts.items():
+            vals[m] = (cc, nbytes)
+            okc = okc and cc == (nbytes // 2 if m in ('kanji', 'hanzi') else nbytes) and smode == md[m] and senc == ('iso-8859-1' if m == 'byte' else None)
+    yield ob('char_count = bytes (numeric, alphanumeric, byte) / byte pairs (kanji, hanzi)', okc, fn, got=counts,
+             want='(char_count, bytes): n bytes -> n, n, n, n/2, n/2; the mode asked for; no encoding given -> None (byte: iso-8859-1)')
+    seg = call(b'\xe4\xf6', 'byte', 'iso-8859-15')
+    oke = not (isinstance(seg, tuple) and seg and seg[0] == 'raises') and seg.encoding == 'iso-8859-15' and seg.mode == md['byte'] and seg.char_count == 2
+    yield ob('segment = (bits written, char_count, mode, encoding): a byte segment keeps the encoding it was given', oke, fn,
+             got=seg if isinstance(seg, tuple) and seg and seg[0] == 'raises' else (seg.char_count, seg.mode, seg.encoding), want=(2, md['byte'], 'iso-8859-15'))
     # Buffer (the real class, interpreted): append_bits writes MSB first, toints groups 8 bits MSB first with zero fill
     from ..interp import Instance
     ab = fx.fn('encoder', 'Buffer.append_bits')
@@ -231,9 +276,6 @@ def r2(fx):
     bf2 = Instance.new(fx.forest, 'encoder', 'Buffer', genv, it, [0, 0, 0, 0, 1, 1, 1, 1] * 3)
     vals2 = [int(x) for x in bf2.toints()]
     yield ob('Buffer.toints groups 8 bits MSB first, zero fill', vals == [0xA5, 0xC0] and vals2 == [0x0F] * 3, ti, got=(vals, vals2), want=([0xA5, 0xC0], [0x0F] * 3))
-    seg = single([s for s in fn.body if isinstance(s, ast.Return)], 'return of make_segment')
-    bb = pat.need(seg.value, '_Segment(buff.getbits(), char_count, segment_mode, segment_encoding)', 'make_segment result')
-    yield ob('segment = (bits written, char_count, mode, encoding)', bb is not None, seg, got=ast.unparse(seg.value), want='_Segment(...)')
 
 
 @rule('C01', 'R3', 300, 'bits written = bits budgeted (write_segment + SA header vs bit_length_with_overhead), all versions/modes/ECI/SA')
